@@ -331,6 +331,32 @@ kfs_harness! {
     }
 }
 
+// ---- a write into a directory that does not exist yet, while other writers create it (C05) --------
+kfs_harness! {
+    #[kani::unwind(48)]
+    #[kani::stub(crate::raw_cache::prune, crate::kv_kfs::spec_prune)]
+    #[kani::stub(crate::trigger::PeriodicTrigger::event, crate::kv_kfs::s_trigger_event)]
+    fn plain_write_missing_dir_env() {
+        kfs::reset();
+        kfs::k().trigger_mode = 1; // no maintenance: the subject is the create-directory-and-retry path
+        kfs::mkdir(kfs::D_X);
+        let src = kfs::user_source(kfs::D_X, 0, kfs::S_A, 9, true);
+        let cache = Cache::new(kfs::path_of(kfs::D_W, kfs::NONE), 1000);
+        kfs::k().env = kfs::ENV_MKDIR_ONLY;
+        kfs::k().dir[kfs::D_W as usize].shared = true;
+        let from = kfs::path_of(kfs::D_X, 0);
+        let put: bool = kani::any();
+        kfs::begin_op(if put { kfs::OP_PLAIN_PUT } else { kfs::OP_PLAIN_SET }, 1000, 0, 0);
+        let r = if put { cache.put(kfs::KEY_A, &from) } else { cache.set(kfs::KEY_A, &from) };
+        assert!(r.is_ok(), "KV-C05: a write into a missing directory completes even when another participant creates the directory concurrently");
+        assert!(kfs::bound(kfs::D_W, kfs::S_A) == src && kfs::bound(kfs::D_X, 0) == kfs::NONE, "KV-C11: the value is stored and the source consumed");
+        assert!(kfs::k().calls <= 16, "KV-C06: writes retry at most once");
+        kani::cover!(kfs::k().dir[kfs::D_W as usize].created_by_us, "we created the directory");
+        kani::cover!(!kfs::k().dir[kfs::D_W as usize].created_by_us, "a peer created the directory");
+        std::mem::forget(r);
+    }
+}
+
 // ---- invalid names: InvalidInput and nothing touched (C16) ----------------------------------------
 fn invalid_name_case(name: &'static str) {
     kfs::reset();
